@@ -105,6 +105,18 @@ theorem tie_segReadAt : segReadAtText =
 theorem tie_collectionFileReader : collectionFileReaderCalls =
     ["(&arvados.Collection{ManifestText: mText}).FileSystem", "fs.OpenFile"] := rfl
 
+/-- Sweep only deletes map entries (Model.sweep / Model.C03_Conc `sweep`): nothing of an evicted
+block is kept or handed on. -/
+theorem tie_sweepText : sweepText =
+    "{ max := c.MaxBlocks if max == 0 { max = defaultMaxBlocks } c.mtx.Lock() defer c.mtx.Unlock() if len(c.cache) <= max { return } lru := make([]time.Time, 0, len(c.cache)) for _, b := range c.cache { lru = append(lru, b.lastUse) } sort.Sort(sort.Reverse(timeSlice(lru))) threshold := lru[max] for loc, b := range c.cache { if !b.lastUse.After(threshold) { delete(c.cache, loc) } } }" := rfl
+
+/-- The write path does not touch the block cache (the model's cache changes only in Get's fetch,
+Sweep and Clear): PutB and PutHB call nothing but the hash and putReplicas. -/
+theorem tie_writesBypassCache :
+    putBCalls = ["fmt.Sprintf", "md5.Sum", "kc.PutHB"] ∧
+    putHBCalls = ["bytes.NewBuffer", "kc.putReplicas", "int64", "len"] ∧
+    clearAssigns = ["c.cache = nil"] := ⟨rfl, rfl, rfl⟩
+
 /-- filenode.Read (Model.fileRead): seek, EOF past the last segment, one segment read, pointer
 advance, EOF at a segment end that is not the file end becomes nil. -/
 theorem tie_filenodeRead : filenodeReadText =
